@@ -154,6 +154,7 @@ pub fn run(args: &Args, rep: &mut Report) {
         let shape = Shape { max_samples: 5, max_contigs: 4, max_contig_len: 3000, iupac: true, allow_many_samples: false };
         let set = gen::sample_set(&mut rng, &p, &shape);
         let path = format!("{}/a{}.agc", dir, i);
+        crate::mon::set_case(i, jobj(&[("case", i.to_string()), ("params", p.json()), ("input", set.brief())]));
         match catch_unwind(AssertUnwindSafe(|| drive::create(&path, &set, &p))) {
             Ok(Ok(())) => {}
             other => {
